@@ -30,6 +30,8 @@ macro_rules! dense_be {
                     "row_vector_from_vec" => DenseMatrix::row_vector_from_vec(data.to_vec()),
                     "column_vector_from_array" => DenseMatrix::column_vector_from_array(data),
                     "column_vector_from_vec" => DenseMatrix::column_vector_from_vec(data.to_vec()),
+                    // the native constructions of the other back ends have no DenseMatrix counterpart
+                    v if v.starts_with("nat_") => DenseMatrix::from_array(r, c, data),
                     other => panic!("harness: unknown constructor {}", other),
                 }
             }
